@@ -7,8 +7,8 @@ correspond: X1 severity gating: single-site programs per checker x value kind x 
             X2 straight-line malloc/free/assign/deref/return programs (length 1..12): findings of the real binary vs
                `leak_run` (equality per statement) and vs the concrete heap semantics `exec` (+ ASan/LSan on a sample)
             X3 correct-by-construction programs (a guard before every potentially undefined operation) run under
-               gcc -fsanitize=address,undefined over their whole input domain: any error-severity finding on a
-               program whose every execution is clean is the failing input
+               gcc -fsanitize=address,undefined over their whole input domain: an error-severity finding on a
+               line that a clean program reaches is the failing input (findings in unreachable code are counted)
 """
 import os
 import re
@@ -237,13 +237,49 @@ def run_guarded(run, work, nfuncs, name):
                 dirty.add(fn)
     if "AddressSanitizer" in err and not dirty:
         dirty = set(spans)      # cannot attribute: judge nothing
-    bad = []
+    cand = []
     for f in funcs:
         run.count("guarded", None, nontrivial=(name, f.name), bucket=",".join(sorted(f.ops)) + ("/dirty" if f.name in dirty else ""))
         if f.name in dirty:
             continue
         for fd in errs.get(f.name, []):
-            bad.append((f, fd))
+            cand.append((f, fd))
+    # the property speaks about expressions that some execution evaluates: count how often the flagged line is reached
+    bad = []
+    if cand:
+        out_l = [gen.prologue(), "#include <stdio.h>", "static long long hit_[%d]; static int w_[%d][3]; static int a_[3];" % (len(cand) + 1, len(cand) + 1)]
+        drv = ["int main(void) {"]
+        for k, (f, fd) in enumerate(cand):
+            a, b = spans[f.name]
+            text = list(f.text)
+            text[0] = text[0].replace(f.name + "(", "%s_%d(" % (f.name, k))
+            rel = fd.line - a
+            text.insert(rel, "  if (hit_[%d]++ == 0) { w_[%d][0] = a_[0]; w_[%d][1] = a_[1]; w_[%d][2] = a_[2]; }" % (k, k, k, k))
+            out_l += text
+            params = re.findall(r"int (\w)", f.text[0].split("(", 1)[1])
+            loops = "".join("for (int %s = %d; %s <= %d; %s++) " % (p_, c04_gen.DOM[0], p_, c04_gen.DOM[-1], p_) for p_ in params)
+            sets = " ".join("a_[%d] = %s;" % (i, p_) for i, p_ in enumerate(params))
+            drv.append("  { volatile int s_ = 0; %s{ %s s_ += %s_%d(%s); } }" % (loops, sets, f.name, k, ", ".join(params)))
+            drv.append("  printf(\"H %d %%lld %%d %%d %%d\\n\", hit_[%d], w_[%d][0], w_[%d][1], w_[%d][2]);" % (k, k, k, k, k))
+        drv += ["  return 0;", "}"]
+        hpath = os.path.join(work, name + "_hit.c")
+        open(hpath, "w").write("\n".join(out_l + drv) + "\n")
+        hexe = os.path.join(work, name + "_hit")
+        vc.gcc_build(hpath, hexe, flags=(), opt="-O0")
+        rc, out, err = vc.run_exe(hexe, timeout=600)
+        hits = {}
+        for l in out.split("\n"):
+            t = l.split()
+            if len(t) == 6 and t[0] == "H":
+                hits[int(t[1])] = (int(t[2]), [int(x) for x in t[3:6]])
+        for k, (f, fd) in enumerate(cand):
+            n, w = hits.get(k, (None, None))
+            if n is None:
+                raise vlib.BuildError("reachability run failed for %s: %s" % (f.name, err[-300:]))
+            run.count("guarded-error-findings", None, nontrivial=(name, f.name, fd.id), bucket=fd.id + (":dead-code" if n == 0 else ":reached"))
+            if n > 0:
+                params = re.findall(r"int (\w)", f.text[0].split("(", 1)[1])
+                bad.append((f, fd, dict(zip(params, w)), n))
     return bad, len(dirty), findings
 
 
@@ -278,7 +314,13 @@ def check(run, replay):
                           % (want, got, case[1], case[2], case[3]), {"broken": "correspondence severity_of", "program": text, "model": want, "binary": got},
                           found_input=False)
         # ---------------- X2
-        diffs, wrong, progs, sem = run_leak(run, model, work, 1500 if quick else 30000, "leak")
+        diffs, wrong, progs, sem = [], [], [], []
+        for chunk in range(1 if quick else 6):      # the analyser is slow on very large files: 2000 programs per file
+            d_, w_, p_, s_ = run_leak(run, model, work, 1500 if quick else 2000, "leak%d" % chunk)
+            diffs += d_
+            wrong += w_
+            progs += p_
+            sem += s_
         run.stream("leak")["disagreements"] += len(diffs)
         for p, want, got, lines in diffs[:3]:
             run.violation("leak-model:" + "".join(p), "leak_run says %s, the binary reports %s for %s" % (want, got, "".join(p)),
@@ -306,7 +348,7 @@ def check(run, replay):
             run.violation(key, "finding %s on a program whose execution up to there is %s (ASan/LSan: %s)" % (g_, v, conf),
                           {"program": "#include <stdlib.h>\n" + "\n".join(lines) + "\n", "finding": g_, "semantics": v, "sanitizers": conf})
         # cross-check the Coq heap semantics against ASan/LSan
-        k = 15 if quick else 150
+        k = 15 if quick else 60
         sample = run.rng.sample(range(len(progs)), k)
         for i in sample:
             v = sem[i][0].decode()
@@ -327,14 +369,15 @@ def check(run, replay):
             bad, ndirty, findings = run_guarded(run, work, 80 if quick else 150, "g%d" % rd)
             tot_dirty += ndirty
             seen = set()
-            for f, fd in bad:
+            for f, fd, inp, nhit in bad:
                 key = classify_guarded(f, fd) or "guarded:%s:%s" % (fd.id, re.sub(r"\s+", " ", " ".join(f.text))[-160:])
                 if key in seen:
                     continue
                 seen.add(key)
                 run.stream("guarded")["disagreements"] += 1
-                run.violation(key, "error finding %s on a function whose every execution is clean under ASan/UBSan: %s" % (fd.id, fd.msg[:120]),
-                              {"program": c04_gen.Gen(None).prologue() + "\n".join(f.text) + "\n", "finding": fd.show(), "domain": f.domain,
+                run.violation(key, "error finding %s on a function whose every execution is clean under ASan/UBSan; the flagged line is reached %d times, first for %s: %s"
+                              % (fd.id, nhit, inp, fd.msg[:120]),
+                              {"program": c04_gen.Gen(None).prologue() + "\n".join(f.text) + "\n", "finding": fd.show(), "domain": f.domain, "input": inp,
                                "how": "cppcheck --enable=warning --library=std t.c; gcc -fsanitize=address,undefined, call the function over `domain`"})
             if len(run.samples) < 8:
                 run.samples += [{"stream": "guarded", "finding": fd.show()} for fd in findings if fd.severity == "error"][:2]
